@@ -20,6 +20,9 @@ For EVERY history of `+` without a self-link (any graph, any order, either orien
 * `graph_steps_bound`   : the walk takes at most as many hops as the `steps` field of the source's entry says
   (the field may be stale, i.e. larger than the walk, which may be larger than the distance).
 
+* `shortest_if_steps_not_stale` : the returned path is a shortest chain whenever the `steps` field of the SOURCE's entry
+  is not stale (equals the graph distance); a non-shortest route needs a stale entry at its source.
+
 What is NOT true in general — "the path is a shortest one" — holds for forest histories (`forest_routes_exact`) and for
 every history on ≤ 4 nodes (`Props/C20Small.lean`); the 5-ring is the boundary (`Witness/C20.lean`).
 
@@ -161,6 +164,23 @@ theorem graph_steps_bound (fuel fuel' : Nat) (hist : List (Nat × Nat)) (g : Gra
   rw [e1] at e2
   cases e2
   exact hlen
+
+/-- **When the returned path IS a shortest one, any graph.**  If the `steps` field of the source's entry is not stale —
+no chain of links from `s` to `t` has fewer than `steps` hops — the returned path is a shortest chain.  (Always:
+hops of the returned path ≤ `steps`, `graph_steps_bound`.  A non-shortest route therefore needs a stale entry at its
+SOURCE: one that was computed, when the source was last refreshed, from a neighbour whose own table had not yet been
+refreshed after the link that created the shorter chain — `Witness/C20.lean: pentagon_not_shortest`, entry `(3, 0, 3)` of
+node 2 at distance 2.)  In a forest no entry is ever stale (`forest_tables_exact`). -/
+theorem shortest_if_steps_not_stale (fuel fuel' : Nat) (hist : List (Nat × Nat)) (g : Graph)
+    (hns : ∀ e ∈ hist, e.1 ≠ e.2) (hb : build fuel hist = some g) (s t : Nat) (r : Route) (hts : t ≠ s)
+    (hr : lookupRoute (get g s).routes t = some r)
+    (hfresh : ∀ q : List Nat, q.head? = some s → q.getLast? = some t → q.IsChain (linked hist) → r.steps + 1 ≤ q.length)
+    (p : List Nat) (hp : path fuel' g s t = .ok p) :
+    ∀ q : List Nat, q.head? = some s → q.getLast? = some t → q.IsChain (linked hist) → p.length ≤ q.length := by
+  intro q q1 q2 q3
+  have := graph_steps_bound fuel fuel' hist g hns hb s t r hts hr p hp
+  have := hfresh q q1 q2 q3
+  omega
 
 /-! ## trees (forests) given in any order of their links -/
 
